@@ -33,6 +33,10 @@ Definition rvec := list rbit.                       (* LSB first *)
 Definition view (r : rbit) : tbit := of_planes (snd r) (fst r).
 Definition viewv (v : rvec) : bv := map view v.
 
+Definition rbit_eq_dec (a b : rbit) : {a = b} + {a <> b}.
+Proof. decide equality; apply bool_dec. Defined.
+Definition rvec_eq_dec : forall a b : rvec, {a = b} + {a <> b} := list_eq_dec rbit_eq_dec.
+
 Definition rzero : rbit := (false, false).
 (* initializeStates: resize (zero fill) + clearRange(DEFINED) *)
 Definition rzeros (w : nat) : rvec := repeat rzero w.
@@ -248,10 +252,9 @@ Definition line_change (l : vline) : option (string * bv) :=
 Definition rd_step (T : N) (id : string) (st : N * option bv) (l : vline) : N * option bv :=
   match l with
   | LTime n => (n, snd st)
-  | _ => match line_change l with
-         | Some (id', v) => if (String.eqb id' id && (fst st <=? T)%N)%bool then (fst st, Some v) else st
-         | None => st
-         end
+  | LScalar b id' => if (String.eqb id' id && (fst st <=? T)%N)%bool then (fst st, Some [b]) else st
+  | LVector bs id' => if (String.eqb id' id && (fst st <=? T)%N)%bool then (fst st, Some (rev bs)) else st
+  | LRaw _ => st
   end.
 
 (* value changes before the first `#` line belong to time 0 *)
